@@ -11,7 +11,7 @@ import re
 import subprocess
 
 HEADER = """From JsonSyntax Require Import Base.Prelude Base.Value Base.Unicode Base.Source
-  Model.Parser Model.EntryPoints Model.Printer Model.Unordered Model.Compare Spec.Layout Spec.Minimal.
+  Model.Parser Model.EntryPoints Model.Printer Model.Unordered Model.Compare Model.CodeMapNav Spec.Layout Spec.Minimal.
 From JsonSyntax Require Model.Macro Model.MacroFloat Spec.MacroDoc.
 Import ListNotations.
 Open Scope N_scope.
@@ -152,11 +152,27 @@ def case_term(fam, case):
     t = case.split(" ")
     if fam == "c19" and t[0] == "m":
         return _c19_case_term(t)
-    if fam in ("c12", "c02", "c05"):
+    if fam == "c12":
         if t[0] == "s":
             return f"parse_str_with {opts_term(t[1])} {cps_term(t[2])}"
         if t[0] == "b":
             return f"parse_slice_with {opts_term(t[1])} {cps_term(t[2])}"
+    if fam in ("c05", "c07"):
+        # both entry points on a text, one on bytes; tagged so that model_line knows which
+        if t[0] == "s":
+            return (f"(true, parse_str_with {opts_term(t[1])} {cps_term(t[2])}, "
+                    f"parse_slice_with {opts_term(t[1])} (utf8_encode_all {cps_term(t[2])}))")
+        if t[0] == "b":
+            r = f"parse_slice_with {opts_term(t[1])} {cps_term(t[2])}"
+            return f"(false, {r}, {r})"
+    if fam == "c14" and t[0] == "m":
+        # m | a | b | c : comparison observables of (a, b) are functions of these four
+        parts = " ".join(t[1:]).split(" | ")
+        parts = [x.strip("| ").strip() for x in parts if x.strip("| ").strip()]
+        if len(parts) >= 2:
+            a, _ = value_term(parts[0].split(" "))
+            b, _ = value_term(parts[1].split(" "))
+            return f"(value_cmp {a} {b}, value_eq {a} {b}, hash_stream {a})"
     if fam == "c13" and t[0] == "p":
         bar = t.index("|")
         v, _ = value_term(t[bar + 1:])
@@ -282,6 +298,37 @@ def model_line(fam, ast):
         if ast[1] == "Err":
             return "ERR " + error_line(ast[2][0]) + " EP=1", None
         return "MODEL-" + ast[1], None
+    if fam in ("c05", "c07"):
+        text, a, b = ast[1]
+
+        def count(v):
+            c, args = v[1], v[2]
+            if c == "VArr":
+                return 1 + sum(count(x) for x in args[0][1])
+            if c == "VObj":
+                return 1 + sum(2 + count(e[1][1]) for e in args[0][1])
+            return 1
+
+        def show(r):
+            if fam == "c05":
+                if r[1] == "Ok":
+                    v, cm = r[2][0][1]
+                    return "OK %s T%d" % (codemap_line(cm), count(v))
+                return "ERR" if r[1] == "Err" else "MODEL-" + r[1]
+            if r[1] == "Ok":
+                return "OK"
+            if r[1] == "Err":
+                e = r[2][0]
+                offs = e[2]
+                if e[1] in ("EStream", "EUnexpected", "EInvalidUtf8"):
+                    ps = "P%d S%d-%d" % (offs[0], offs[0], offs[0])
+                else:
+                    ps = "P%d S%d-%d" % (offs[0], offs[0], offs[1])
+                return "ERR " + error_line(e) + " " + ps
+            return "MODEL-" + r[1]
+        if text[1] == "true":
+            return show(a) + " ; " + show(b) + " EP=1", None
+        return show(a) + " EP=1", None
     if fam == "c13":
         p, l = ast[1]
         return opt_text(p), cps_tok(l)
